@@ -1,0 +1,115 @@
+//go:build verif
+
+package reconciler
+
+import (
+	"context"
+	"reflect"
+
+	"k8s.io/client-go/util/workqueue"
+	"sigs.k8s.io/controller-runtime/pkg/client"
+	"sigs.k8s.io/controller-runtime/pkg/event"
+
+	"github.com/jcmoraisjr/haproxy-ingress/pkg/controller/config"
+	"github.com/jcmoraisjr/haproxy-ingress/pkg/controller/services"
+	"github.com/jcmoraisjr/haproxy-ingress/pkg/converters/types"
+)
+
+// VerifWatchers drives the watchers without a manager,
+// used by the verification harness only (build tag verif).
+type VerifWatchers struct {
+	w        *watchers
+	handlers []*hdlr
+	q        *verifQueue
+}
+
+type verifQueue struct {
+	workqueue.TypedRateLimitingInterface[rparam]
+	notify func(fullsync bool)
+}
+
+func (q *verifQueue) AddRateLimited(item rparam) {
+	if q.notify != nil {
+		q.notify(item.fullsync)
+	}
+}
+
+// NewVerifWatchers creates the watchers and its handlers. notify
+// is called on every item the handlers add to the reconciler queue.
+func NewVerifWatchers(ctx context.Context, cfg *config.Config, val services.IsValidResource, notify func(fullsync bool)) *VerifWatchers {
+	w := createWatchers(ctx, cfg, val)
+	return &VerifWatchers{
+		w:        w,
+		handlers: w.getHandlers(),
+		q:        &verifQueue{notify: notify},
+	}
+}
+
+func (v *VerifWatchers) find(obj client.Object) []*hdlr {
+	var hs []*hdlr
+	for _, h := range v.handlers {
+		if reflect.TypeOf(h.typ) == reflect.TypeOf(obj) {
+			hs = append(hs, h)
+		}
+	}
+	return hs
+}
+
+// Create applies the predicates and calls the Create handler
+// of obj's kind, returns true if the event was accepted.
+func (v *VerifWatchers) Create(ctx context.Context, obj client.Object) bool {
+	accepted := false
+	for _, h := range v.find(obj) {
+		e := event.CreateEvent{Object: obj}
+		ok := true
+		for _, p := range h.pr {
+			ok = ok && p.Create(e)
+		}
+		if ok {
+			h.Create(ctx, e, v.q)
+			accepted = true
+		}
+	}
+	return accepted
+}
+
+// Update applies the predicates and calls the Update handler
+// of obj's kind, returns true if the event was accepted.
+func (v *VerifWatchers) Update(ctx context.Context, old, new client.Object) bool {
+	accepted := false
+	for _, h := range v.find(new) {
+		e := event.UpdateEvent{ObjectOld: old, ObjectNew: new}
+		ok := true
+		for _, p := range h.pr {
+			ok = ok && p.Update(e)
+		}
+		if ok {
+			h.Update(ctx, e, v.q)
+			accepted = true
+		}
+	}
+	return accepted
+}
+
+// Delete applies the predicates and calls the Delete handler
+// of obj's kind, returns true if the event was accepted.
+func (v *VerifWatchers) Delete(ctx context.Context, obj client.Object) bool {
+	accepted := false
+	for _, h := range v.find(obj) {
+		e := event.DeleteEvent{Object: obj}
+		ok := true
+		for _, p := range h.pr {
+			ok = ok && p.Delete(e)
+		}
+		if ok {
+			h.Delete(ctx, e, v.q)
+			accepted = true
+		}
+	}
+	return accepted
+}
+
+// Swap takes the current batch the same way Reconcile does.
+func (v *VerifWatchers) Swap() *types.ChangedObjects {
+	return v.w.getChangedObjects()
+}
